@@ -514,7 +514,7 @@ fn doc_parse_line<'a>(line: &'a str, into: &mut Vec<(DReg, Vec<&'a str>)>) -> Re
 
 /// What the documentation prescribes for this case. `Err(why)`: the oracle abstains.
 /// (cfa, ra, registers as the property prescribes, registers when a value that does not fit the
-/// register is left alone as the implementation does — the known finding)
+/// register is left alone — the defect fixed by 15b778b; a result equal to it gets its own class)
 type DocState = Option<(u64, u64, Vec<(String, u64)>, Vec<(String, u64)>)>;
 
 fn doc_expect(c: &Case, mock0: &Mock) -> Result<DocState, &'static str> {
